@@ -10,6 +10,7 @@ import (
 	"unsafe"
 
 	"verif/dposkit"
+	"verif/par"
 )
 
 // Part (a): field-by-field round trip of every checkpoint type.
@@ -46,6 +47,11 @@ type popCtx struct {
 	t       *target
 	variant map[reflect.Type]reflect.Type
 	sel     string // "" = populate everything; else the only leaf path to populate
+	count   int    // number of elements of the container selected by sel = <path>.len
+	counted bool   // count is meaningful (container-length instance); otherwise one element
+	// interface-typed sites are given a (zero-valued) concrete value even off the selected path:
+	// set for the elements of a counted container, which must be encodable
+	forceIface bool
 }
 
 func (c *popCtx) on(path string) bool { // is the selected leaf at or beneath path?
@@ -142,7 +148,7 @@ func (c *popCtx) fill(v reflect.Value, path, gpath string, depth int) {
 		}
 	case reflect.Interface:
 		ct, ok := c.variant[t]
-		if !ok || (!c.on(path) && !c.t.always[gpath]) {
+		if !ok || (!c.on(path) && !c.t.always[gpath] && !c.forceIface) {
 			return
 		}
 		nv := reflect.New(ct)
@@ -165,30 +171,91 @@ func (c *popCtx) fill(v reflect.Value, path, gpath string, depth int) {
 		if !c.on(path) {
 			return
 		}
+		if c.sel == path+".len" {
+			// container-length instance: count elements with distinct keys and zero values
+			for i := 0; i < c.elems(); i++ {
+				k := reflect.New(t.Key()).Elem()
+				(&popCtx{t: c.t, variant: c.variant}).fill(k, "", "", depth+1)
+				varyKey(k, i)
+				e := reflect.New(t.Elem()).Elem()
+				(&popCtx{t: c.t, variant: c.variant, sel: "\x00none", forceIface: true}).fill(e, path+"[]", gpath+"[*]", depth+1)
+				v.SetMapIndex(k, e)
+			}
+			return
+		}
 		k := reflect.New(t.Key()).Elem()
 		kc := &popCtx{t: c.t, variant: c.variant}
 		kc.fill(k, "", "", depth+1) // keys are always fully sampled
 		ep := path + "[" + dposkit.InlineKey(k) + "]"
 		e := reflect.New(t.Elem()).Elem()
-		if c.sel != path+".len" {
-			c.fill(e, ep, gpath+"[*]", depth+1)
-		} else {
-			(&popCtx{t: c.t, variant: c.variant, sel: "\x00none"}).fill(e, ep, gpath+"[*]", depth+1)
-		}
+		c.fill(e, ep, gpath+"[*]", depth+1)
 		v.SetMapIndex(k, e)
 	case reflect.Slice:
 		if !c.on(path) {
 			return
 		}
-		e := reflect.New(t.Elem()).Elem()
-		ep := path + "[0]"
-		if c.sel != path+".len" {
-			c.fill(e, ep, gpath+"[*]", depth+1)
-		} else {
-			(&popCtx{t: c.t, variant: c.variant, sel: "\x00none"}).fill(e, ep, gpath+"[*]", depth+1)
+		if c.sel == path+".len" {
+			sl := reflect.MakeSlice(t, 0, c.elems())
+			for i := 0; i < c.elems(); i++ {
+				e := reflect.New(t.Elem()).Elem()
+				(&popCtx{t: c.t, variant: c.variant, sel: "\x00none", forceIface: true}).fill(e, path+"[]", gpath+"[*]", depth+1)
+				sl = reflect.Append(sl, e)
+			}
+			v.Set(sl)
+			return
 		}
+		e := reflect.New(t.Elem()).Elem()
+		c.fill(e, path+"[0]", gpath+"[*]", depth+1)
 		v.Set(reflect.Append(reflect.MakeSlice(t, 0, 1), e))
 	}
+}
+
+func (c *popCtx) elems() int {
+	if !c.counted {
+		return 1
+	}
+	return c.count
+}
+
+// varyKey makes the i-th key of a container distinct from the others (i = 0 keeps the sample).
+func varyKey(k reflect.Value, i int) bool {
+	if i == 0 {
+		return true
+	}
+	k = writable(k)
+	switch k.Kind() {
+	case reflect.String:
+		k.SetString(fmt.Sprintf("s%d", i))
+	case reflect.Int, reflect.Int8, reflect.Int16, reflect.Int32, reflect.Int64:
+		k.SetInt(k.Int() + int64(i))
+	case reflect.Uint, reflect.Uint8, reflect.Uint16, reflect.Uint32, reflect.Uint64:
+		k.SetUint(k.Uint() + uint64(i))
+	case reflect.Array:
+		if k.Type().Elem().Kind() != reflect.Uint8 || k.Len() < 4 {
+			return false
+		}
+		for b := 0; b < 4; b++ {
+			k.Index(b).SetUint(uint64(byte(i >> (8 * uint(b)))))
+		}
+		k.Index(k.Len() - 1).SetUint(0xee)
+	case reflect.Struct:
+		for f := 0; f < k.NumField(); f++ {
+			if varyKey(k.Field(f), i) {
+				return true
+			}
+		}
+		return false
+	default:
+		return false
+	}
+	return true
+}
+
+// buildCount builds the instance in which only the container at path holds n elements.
+func (t *target) buildCount(variant map[reflect.Type]reflect.Type, path string, n int) reflect.Value {
+	p := reflect.New(t.typ)
+	(&popCtx{t: t, variant: variant, sel: path + ".len", count: n, counted: true}).fill(p.Elem(), "", "", 0)
+	return p
 }
 
 func (t *target) build(variant map[reflect.Type]reflect.Type, sel string) reflect.Value {
@@ -208,7 +275,16 @@ type leafStat struct {
 	example                string
 }
 
+// sizeFailure is one container-length instance that did not come back intact.
+type sizeFailure struct {
+	container string // generic path
+	n         int
+	why       string
+}
+
 type walkResult struct {
+	sizeInstances             int
+	sizeFailures              []sizeFailure
 	instances, usable, leaves int
 	lossy                     []string          // generic leaf paths never preserved
 	why                       map[string]string // example text per lossy leaf
@@ -324,6 +400,66 @@ func (t *target) walk() walkResult {
 			}
 		}
 	}
+	// container-length menu: every map / slice field (every ".len" line of the all-populated
+	// instance) holding n elements with distinct keys, everything else empty
+	type sizeJob struct {
+		variant map[reflect.Type]reflect.Type
+		path    string
+		n       int
+	}
+	var sjobs []sizeJob
+	seenContainer := map[string]bool{}
+	for _, variant := range variants {
+		for _, l := range linesOf(t.build(variant, "")) {
+			p := pathOfLine(l)
+			if !strings.HasSuffix(p, ".len") {
+				continue
+			}
+			p = strings.TrimSuffix(p, ".len")
+			g := dposkit.Generic(p)
+			key := g
+			if len(variants) > 1 && containsInterfaceElem(t, variant, p) {
+				key = fmt.Sprintf("%s|%v", g, variantName(variant))
+			}
+			if seenContainer[key] {
+				continue
+			}
+			seenContainer[key] = true
+			for _, n := range containerSizes {
+				sjobs = append(sjobs, sizeJob{variant, p, n})
+			}
+		}
+	}
+	fails := make([]*sizeFailure, len(sjobs))
+	par.Go(len(sjobs), func(i int) {
+		j := sjobs[i]
+		in := t.buildCount(j.variant, j.path, j.n)
+		g := dposkit.Generic(j.path)
+		before := linesOf(in)
+		if got := lenLine(before, j.path); got != j.n {
+			// keys of this container cannot be made distinct by the walker (engine limit)
+			if j.n > 1 {
+				return
+			}
+		}
+		out, err := safeRoundTrip(t, in)
+		if err != nil {
+			fails[i] = &sizeFailure{g, j.n, "Serialize/Deserialize failed: " + err.Error()}
+			return
+		}
+		after := linesOf(out)
+		// zero-valued lines are dropped on both sides: the skeleton allocates struct pointers that
+		// an encoder may legitimately bring back as nil (wallet link items: zero outpoint <-> nil)
+		if d := dposkit.DiffLines(nonZero(before), nonZero(after), 3); len(d) > 0 {
+			fails[i] = &sizeFailure{g, j.n, "content differs after the round trip: " + strings.Join(d, " | ")}
+		}
+	})
+	res.sizeInstances = len(sjobs)
+	for _, f := range fails {
+		if f != nil {
+			res.sizeFailures = append(res.sizeFailures, *f)
+		}
+	}
 	var gs []string
 	for g := range stats {
 		gs = append(gs, g)
@@ -374,14 +510,63 @@ func fieldGroup(g string) string {
 	return g
 }
 
+// containerSizes is the length menu of the container family (set by main per tier).
+var containerSizes = []int{0, 1, 2, 10001}
+
+func lenLine(lines []string, path string) int {
+	want := path + ".len = "
+	for _, l := range lines {
+		if strings.HasPrefix(l, want) {
+			n := 0
+			fmt.Sscan(l[len(want):], &n)
+			return n
+		}
+	}
+	return 0
+}
+
+func variantName(v map[reflect.Type]reflect.Type) string {
+	var ns []string
+	for _, t := range v {
+		ns = append(ns, t.String())
+	}
+	sort.Strings(ns)
+	return strings.Join(ns, ",")
+}
+
+// containsInterfaceElem: does the container at path hold interface-typed elements (so that the
+// variant matters)? Decided from the all-populated instance: a ".(type)" line right below it.
+func containsInterfaceElem(t *target, variant map[reflect.Type]reflect.Type, path string) bool {
+	for _, l := range linesOf(t.build(variant, path+".len")) {
+		if strings.HasPrefix(l, path+"[") && strings.Contains(pathOfLine(l), ".(type)") {
+			return true
+		}
+	}
+	return false
+}
+
+func nonZero(lines []string) []string {
+	var out []string
+	for _, l := range lines {
+		if !isZeroLine(l) {
+			out = append(out, l)
+		}
+	}
+	return out
+}
+
 // isZeroLine: a canonical line that denotes an empty / zero value (not a populated leaf).
 func isZeroLine(l string) bool {
 	i := dposkit.SepIndex(l)
 	if i < 0 {
 		return true
 	}
-	switch l[i+3:] {
+	v := l[i+3:]
+	switch v {
 	case "0", "false", `""`, "0x", "nil":
+		return true
+	}
+	if strings.HasPrefix(v, "0x") && strings.Trim(v[2:], "0") == "" {
 		return true
 	}
 	return false
